@@ -80,6 +80,18 @@ func ssaWriteEvents(fn *ssa.Function) ([]layout.Ev, error) {
 	seq := 0 // running offset for append-style writers; -1 once a variable-length piece was appended
 	for _, ins := range fn.Blocks[0].Instrs {
 		switch x := ins.(type) {
+		case *ssa.MakeSlice:
+			// make([]byte, K, …): the first K bytes are filled positionally, appends start at K
+			if k, isK := constInt(x.Len); isK && k > 0 && len(ws) == 0 {
+				seq = int(k)
+			}
+		case *ssa.Slice:
+			// make([]byte, K) with a constant capacity compiles to new [C]byte sliced [:K]
+			if al, isAl := x.X.(*ssa.Alloc); isAl && al.Comment == "makeslice" && x.Low == nil && x.High != nil && len(ws) == 0 {
+				if k, isK := constInt(x.High); isK && k > 0 {
+					seq = int(k)
+				}
+			}
 		case *ssa.Call:
 			n := facts.CalleeName(&x.Call)
 			switch {
